@@ -241,8 +241,11 @@ class LiteDRAMNativePortUpConverter(Module):
             #  - we received all the `ratio` commands.
             #  - this is the last command in a sequence.
             #  - master requests a flush (even after the command has been sent).
+            #  - incoming command's chunk is not above all the chunks already selected (data is
+            #    converted in ascending chunk order: it could not be paired with its command).
             next_cmd.eq(addr_changed | (cmd_we != port_from.cmd.we) | (sel == 2**ratio - 1)
-                        | cmd_last | port_from.flush),
+                        | cmd_last | port_from.flush
+                        | (port_from.cmd.valid & ((sel >> port_from.cmd.addr[:log2_int(ratio)]) != 0))),
         ]
 
         self.sync += [
